@@ -263,6 +263,15 @@ async fn main() {
         tip.height
     );
 
+    // On a fresh bootstrap, persist where we start from. Otherwise, if the tower is restarted before a new block
+    // is processed it would start from whatever the tip is by then, skipping all the blocks in between.
+    if last_known_block.is_none() {
+        dbm.lock()
+            .unwrap()
+            .store_last_known_block(&tip.header.block_hash())
+            .unwrap();
+    }
+
     // Build components
     let gatekeeper = Arc::new(Gatekeeper::new(
         tip.height,
